@@ -20,6 +20,7 @@ mod c30;
 mod c35;
 mod c37;
 mod c42;
+mod c43;
 mod c45;
 mod c46;
 mod c47;
@@ -43,6 +44,7 @@ pub fn run(item: &str, repo: &str, out: &str) -> Result<String, String> {
         c35::run,
         c37::run,
         c42::run,
+        c43::run,
         c45::run,
         c46::run,
         c47::run,
